@@ -7,27 +7,27 @@ import (
 
 // LDAP application tags (RFC 4511).
 const (
-	AppBindRequest       = 0
-	AppBindResponse      = 1
-	AppUnbindRequest     = 2
-	AppSearchRequest     = 3
-	AppSearchEntry       = 4
-	AppSearchDone        = 5
-	AppModifyRequest     = 6
-	AppModifyResponse    = 7
-	AppAddRequest        = 8
-	AppAddResponse       = 9
-	AppDelRequest        = 10
-	AppDelResponse       = 11
-	AppModifyDNRequest   = 12
-	AppModifyDNResponse  = 13
-	AppCompareRequest    = 14
-	AppCompareResponse   = 15
-	AppAbandonRequest    = 16
-	AppSearchReference   = 19
-	AppExtendedRequest   = 23
-	AppExtendedResponse  = 24
-	AppIntermediateResp  = 25
+	AppBindRequest           = 0
+	AppBindResponse          = 1
+	AppUnbindRequest         = 2
+	AppSearchRequest         = 3
+	AppSearchEntry           = 4
+	AppSearchDone            = 5
+	AppModifyRequest         = 6
+	AppModifyResponse        = 7
+	AppAddRequest            = 8
+	AppAddResponse           = 9
+	AppDelRequest            = 10
+	AppDelResponse           = 11
+	AppModifyDNRequest       = 12
+	AppModifyDNResponse      = 13
+	AppCompareRequest        = 14
+	AppCompareResponse       = 15
+	AppAbandonRequest        = 16
+	AppSearchReference       = 19
+	AppExtendedRequest       = 23
+	AppExtendedResponse      = 24
+	AppIntermediateResp      = 25
 	ResultUnwillingToPerform = 53
 )
 
